@@ -2,6 +2,7 @@
   C11 — recipients with different label sets cannot share a file.
 -/
 import Proofs.FileLabels
+import Proofs.TapeLayout
 import Proofs.Labels
 import Proofs.ToyPrims
 namespace AgeModel
@@ -26,17 +27,16 @@ theorem write_implies_compatible {S : DstSpec} (P : Prims) (tape : Bytes) (rs : 
   | error e => rw [refusal_writes_nothing P tape rs segs d e hh] at h; exact absurd rfl h
   | ok v => exact ⟨v.1, v.2.1, v.2.2, rfl⟩
 
-/-- Encrypt succeeds ⇒ every recipient wrapped successfully and every recipient's
-    sorted label list equals the first one's (a recipient that declares none
-    counting as the empty list). -/
-theorem encrypt_ok_labels_equal (P : Prims) (tape : Bytes) (r : Recipient) (rs : List Recipient)
-    (fk : Bytes) (st : List Stanza) (t : Bytes)
-    (h : encryptHeader P tape (r :: rs) = .ok (fk, st, t)) :
-    ∃ tp ss l t1, wrapOne P r fk tp = .ok (some (ss, l), t1) ∧
-      ∀ r' ∈ rs, ∃ tp' ss' l' t', wrapOne P r' fk tp' = .ok (some (ss', l'), t') ∧ sortLabels l' = sortLabels l := by
-  obtain ⟨_, t0, _, hw⟩ := encryptHeader_fk h
-  obtain ⟨ss, l, t1, hw1, hall⟩ := wrapAll_labels_none P fk r rs 0 t0 [] st t hw
-  exact ⟨t0, ss, l, t1, hw1, hall⟩
+/-- Encrypt succeeds ⇒ every recipient — taken at its own place `rs = pre ++ r :: post` of the list — wrapped
+    successfully when run at its own place of the REAL tape (after the 16 bytes of the file key and after the
+    `drawSize` bytes of each recipient standing before it), and all the label lists, sorted, are one and the same
+    list `l0` (a recipient that declares none counting as the empty list). The tapes are not chosen: a passphrase
+    recipient's label IS a draw from the tape, and it is the draw at that recipient's own offset that is compared. -/
+theorem encrypt_ok_labels_equal (P : Prims) (tape : Bytes) (rs : List Recipient) (fk : Bytes) (st : List Stanza) (t : Bytes)
+    (h : encryptHeader P tape rs = .ok (fk, st, t)) :
+    ∃ l0 : List Bytes, ∀ (pre : List Recipient) (r : Recipient) (post : List Recipient), rs = pre ++ r :: post →
+      ∃ ss l t1, wrapOne P r fk (tape.drop (16 + (pre.map drawSize).sum)) = .ok (some (ss, l), t1) ∧ sortLabels l = l0 :=
+  encryptHeader_located P tape rs fk st t h
 
 /-- custom recipients, full characterisation: the loop succeeds iff every wrap
     succeeds and all sorted label lists are equal -/
@@ -149,9 +149,22 @@ theorem write_implies_compatible_nonvacuous :
 /-- non-vacuity of `encrypt_ok_labels_equal`: recipients A and B (the same labels in a different order) are accepted together -/
 theorem encrypt_ok_labels_equal_nonvacuous :
     ∃ st, encryptHeader Prims.toy (List.replicate 100 7)
-      (Recipient.custom (fun fk => some [{ type := [88], args := [], body := fk }]) (some [[97], [98]]) ::
-       [Recipient.custom (fun fk => some [{ type := [89], args := [[90]], body := fk ++ fk }]) (some [[98], [97]])]) =
+      [Recipient.custom (fun fk => some [{ type := [88], args := [], body := fk }]) (some [[97], [98]]),
+       Recipient.custom (fun fk => some [{ type := [89], args := [[90]], body := fk ++ fk }]) (some [[98], [97]])] =
       .ok (List.replicate 16 7, st, List.replicate 84 7) := ⟨_, rfl⟩
+
+/-- … and with recipients that DO draw from the tape: two passphrase recipients on the constant tape 7,7,7,… are accepted
+    (the first runs on the tape from byte 16, the second from byte 16 + 32; both label draws are sixteen 7s) … -/
+example : ∃ st, encryptHeader Prims.toy (List.replicate 100 7) [Recipient.scrypt [112] 10, Recipient.scrypt [113] 12] =
+    .ok (List.replicate 16 7, st, List.replicate 20 7) := ⟨_, rfl⟩
+
+/-- … the conclusion there, for the second recipient (`pre` = the first one, 32 bytes): it wrapped on the tape from byte 48 -/
+example : ∃ l0 ss l t1, wrapOne Prims.toy (Recipient.scrypt [113] 12) (List.replicate 16 7)
+    ((List.replicate 100 7 : Bytes).drop (16 + 32)) = .ok (some (ss, l), t1) ∧ sortLabels l = l0 := by
+  obtain ⟨l0, h⟩ := encrypt_ok_labels_equal Prims.toy (List.replicate 100 7)
+    [Recipient.scrypt [112] 10, Recipient.scrypt [113] 12] _ _ _ rfl
+  obtain ⟨ss, l, t1, hw, hl⟩ := h [Recipient.scrypt [112] 10] (Recipient.scrypt [113] 12) [] rfl
+  exact ⟨l0, ss, l, t1, hw, hl⟩
 
 /-- non-vacuity of `custom_loop_iff`: the list B, A consists of custom recipients (and both sides of the equivalence hold
     for it against the sorted labels `a, b`: second conjunct) -/
